@@ -205,12 +205,15 @@ class TupimageConfig:
                 value = platformdirs.user_state_dir("tupimage")
             if name == "upload_method":
                 value = TransmissionMedium.from_string(value)
-            if name in ["max_rows", "max_cols", "num_tmux_layers"]:
-                value = int(value)
-            if name in ["scale", "global_scale"]:
-                value = float(value)
             if name == "supported_formats":
                 value = re.split(r"[, ]+", value)
+            if isinstance(value, str):
+                # Scalar options are converted according to their declared type, so
+                # that every option can be set from a string (environment variables).
+                value = TupimageConfig._convert_scalar(field_type, value)
+        # An integer is a valid value for a float option (e.g. `scale = 2` in toml).
+        if field_type is float and type(value) is int:
+            value = float(value)
 
         provenance = f"({provenance})" if provenance else "(set in code)"
 
@@ -231,6 +234,23 @@ class TupimageConfig:
                     f" {value} {provenance}"
                 )
 
+        return value
+
+    @staticmethod
+    def _convert_scalar(field_type: Any, value: str) -> Any:
+        types = typing.get_args(field_type) or (field_type,)
+        if str in types:
+            return int(value) if int in types and value.isdecimal() else value
+        if bool in types:
+            if value.lower() in ("true", "yes", "on"):
+                return True
+            if value.lower() in ("false", "no", "off"):
+                return False
+            raise ValueError(f"Invalid boolean: '{value}'")
+        if int in types:
+            return int(value)
+        if float in types:
+            return float(value)
         return value
 
     @staticmethod
